@@ -2,7 +2,6 @@ package hotline
 
 import (
 	"encoding/binary"
-	"errors"
 	"fmt"
 	"io"
 	"io/fs"
@@ -62,11 +61,9 @@ func GetFileNameList(path string, ignoreList []string) (fields []Field, err erro
 			}
 
 			rFile, err := os.Stat(resolvedPath)
-			if errors.Is(err, os.ErrNotExist) {
-				continue
-			}
 			if err != nil {
-				return fields, err
+				// skip aliases whose target cannot be resolved (missing target, alias loop, ...)
+				continue
 			}
 
 			if rFile.IsDir() {
